@@ -230,6 +230,18 @@ class Adapter(object):
       return self.locks[op["lk"]].release()
     raise ValueError(k)
 
+  def _sub2gen(self, tid, so):
+    """the sub-function a sub-function calls (Call2): no blocking operations, just a result"""
+    def g():
+      self.log.append([400 + tid, 1, "none"])
+      if so["v"] == "ret":
+        yield 42
+      elif so["v"] == "throw":
+        raise SubErr()
+      return
+      yield      # (a generator even when it returns at once)
+    return g()
+
   def _subgen(self, tid, op):
     sid = 100 + tid
 
@@ -239,7 +251,7 @@ class Adapter(object):
       for j, so in enumerate(op["sub"]):
         self.log.append([sid, j + 1, norm(got)])
         try:
-          got = yield self._make(so)
+          got = yield (recoco.Again(self._sub2gen(tid, so)) if so["op"] == "Call2" else self._make(so))
         except Exception as e:     # noqa
           got = e
       self.log.append([sid, len(op["sub"]) + 1, norm(got)])
@@ -275,6 +287,8 @@ class Adapter(object):
   # ---- projection
   def _tid(self, t):
     if isinstance(t, recoco.AgainTask):
+      if isinstance(t.parent.task, recoco.AgainTask):      # nested call: the caller is itself a sub-function
+        return 400 + t.parent.task.parent.task.vid
       return 100 + t.parent.task.vid
     if isinstance(t, recoco.ScheduleTask):
       if id(t) not in self.stids:
